@@ -155,11 +155,11 @@ theorem synBlock_synSent {port : U16} {issX issY : Seq} {subX subY delX : List U
     obtain ⟨hseq, htext⟩ := hv.syn hsyn'
     simp only at hseq htext
     -- the TCB after the SYN was taken in, in state `st`
-    have base : ∀ st : State, Ok3 st → st ≠ .SynSent →
+    have base : ∀ (st : State) (w2 : Seq), Ok3 st → st ≠ .SynSent →
         TInv port issX issY subX subY delX
           { t with rcv.irs := seg.seq, rcv.nxt := seg.seq + 1, snd.wnd := seg.wnd, snd.wl1 := seg.seq,
-                   snd.wl2 := seg.ack, state := st } := by
-      intro st h3 hne
+                   snd.wl2 := w2, state := st } := by
+      intro st w2 h3 hne
       refine ⟨h.lp, h3, h.iss, h.out, h.rtx, h.one, h.heap, fun h0 => absurd h0 hne, fun _ => ⟨?_, ?_⟩, fun _ => hseq⟩
       · show seg.seq + 1 = _
         rw [hdel, hin, hseq]
@@ -172,11 +172,11 @@ theorem synBlock_synSent {port : U16} {issX issY : Seq} {subX subY delX : List U
       split at e
       · rw [enqueueThen_eq] at e
         cases e
-        refine ⟨(base .Established trivial (by simp)).of_fr (Fr.enqAck _), fun _ => ⟨?_, htext⟩⟩
+        refine ⟨(base .Established _ trivial (by simp)).of_fr (Fr.enqAck _), fun _ => ⟨?_, htext⟩⟩
         rw [state_enqueueBuilt]; simp
       · rw [enqueueThen_eq] at e
         cases e
-        refine ⟨(base .SynReceived trivial (by simp)).enqSyn _ rfl rfl ?_ ?_, fun h0 => by simp at h0⟩
+        refine ⟨(base .SynReceived _ trivial (by simp)).enqSyn _ rfl rfl ?_ ?_, fun h0 => by simp at h0⟩
         · exact h.iss
         · exact h.lp
     all_goals (rename_i hst _; exact absurd hs (by first | exact hst | simp_all))
